@@ -1,5 +1,7 @@
 import Proofs.BatchLemmas
 import Pegnet.Generated.Facts
+import Proofs.Averages
+import Proofs.Process
 /-
   C13 — Conversion admission rules by height.
 -/
@@ -157,6 +159,86 @@ theorem one_way_set_matches_source :
     Generated.rejectMap = [("InsufficientBalanceErr", "InsufficientBalanceErrInt"), ("PFCTOneWayError", "PFCTOneWayErrorInt"),
       ("PSMALLOneWayError", "PSMALLOneWayErrorInt"), ("ZeroRatesError", "ZeroRatesErrorInt")] := by decide
 
+/-! ### "whose average is unavailable": when the node publishes an average -/
+
+/-- the averaging cache of the node is consistent (series within the period, stored averages =
+    the averages of the stored series) along every process run: attempts that commit or fail,
+    killed iterations that did or did not reach the averaging call, restarts -/
+theorem cache_consistent_along_every_run (P : Params) (hp : 0 < P.avgPeriod) (ch : Nat → Block) (es : List Ev) :
+    CacheOK P (runEvs P ch (freshNode P) es).cache := by
+  suffices h : ∀ n : Node, CacheOK P n.cache → CacheOK P (runEvs P ch n es).cache from h _ (cacheOK_empty P)
+  induction es with
+  | nil => intro n hn; exact hn
+  | cons e es ih =>
+    intro n hn
+    show CacheOK P (runEvs P ch (stepEv P ch n e) es).cache
+    apply ih
+    cases e with
+    | attempt =>
+      show CacheOK P (applyBlock P n _).1.cache
+      unfold applyBlock
+      dsimp only
+      split <;> (dsimp only; split)
+      · exact (getAverages_ok P hp _ n.cache _ hn).1
+      · exact hn
+      · exact (getAverages_ok P hp _ n.cache _ hn).1
+      · exact hn
+    | aborted t =>
+      cases t
+      · exact hn
+      · exact (getAverages_ok P hp _ n.cache _ hn).1
+    | restart => exact cacheOK_empty P
+
+/-- **An average is published only on enough usable quotes.** Whichever path the averaging call
+    takes (cache hit, one more height, full reload), a non-zero average for `t` means: the window
+    the node holds for `t` has at most `AveragePeriod` samples, at least `AverageRequired` of them
+    non-zero, and the average is their mean. -/
+theorem average_published_only_with_enough_quotes (P : Params) (hp : 0 < P.avgPeriod) (db : DB) (c : AvgCache)
+    (height : Nat) (hc : CacheOK P c) (t : Ticker) (hne : (getAverages P db c height).2.get t ≠ 0) :
+    ∃ p ∈ (getAverages P db c height).1.data, p.1 = t ∧ p.2.length ≤ P.avgPeriod ∧
+      P.avgRequired ≤ nonZero p.2 ∧
+      (getAverages P db c height).2.get t = (p.2.sum % 18446744073709551616) / p.2.length :=
+  published_average_has_quotes P hp db c height hc t hne
+
+/-- **… and a conversion on a thin window is not executed.** From the PIP-10 activation on, with
+    the averages the node computes at `fromH`: if no series of the source asset (or none of the
+    destination asset) in the node's window has `AverageRequired` non-zero quotes, an otherwise
+    admissible, funded conversion is dropped — no balance changes. -/
+theorem thin_window_conversion_dropped (P : Params) (hp0 : 0 < P.avgPeriod) (db cdb : DB) (c : AvgCache) (fromH h : Nat)
+    (rates : TMap) (t : Tx) (hcache : CacheOK P c)
+    (hc : t.isConversion P = true) (hf : (t.inAmount : Int) ≤ db.bal t.inAddr t.inType) (hne : rates.isEmpty = false)
+    (hr : rates.get t.inType ≠ 0 ∧ rates.get t.conversion ≠ 0)
+    (hnf : ¬ (h ≥ P.act.oneWayFCT ∧ t.conversion = tFCT))
+    (hns : ¬ (h ≥ P.act.oneWaySmall ∧ P.oneWaySet.contains t.conversion = true))
+    (hp : h ≥ P.act.pip10)
+    (hthin : (∀ p ∈ (getAverages P cdb c fromH).1.data, p.1 = t.inType → nonZero p.2 < P.avgRequired) ∨
+             (∀ p ∈ (getAverages P cdb c fromH).1.data, p.1 = t.conversion → nonZero p.2 < P.avgRequired)) :
+    verdict P db h (some rates) (some (getAverages P cdb c fromH).2) [t] = .dropped := by
+  apply unavailable_average_dropped P db h rates _ t hc hf hne hr hnf hns hp
+  rcases hthin with hthin | hthin
+  · left
+    apply Classical.byContradiction
+    intro hx
+    obtain ⟨p, hm, hk, _, hq, _⟩ := published_average_has_quotes P hp0 cdb c fromH hcache t.inType hx
+    exact absurd (hthin p hm hk) (by omega)
+  · right
+    apply Classical.byContradiction
+    intro hx
+    obtain ⟨p, hm, hk, _, hq, _⟩ := published_average_has_quotes P hp0 cdb c fromH hcache t.conversion hx
+    exact absurd (hthin p hm hk) (by omega)
+
+/-- non-vacuity / witness, evaluated by the kernel: a window of 7 samples (one height ungraded)
+    with 3 non-zero quotes of asset 3 publishes no average for it although 7 ≥ 4 samples exist,
+    while asset 2 with 7 non-zero quotes gets its mean -/
+def wP : Params :=
+  { act := ⟨0,0,0,0,0,0,0,0,0,0,100,100,200,200,300,310,400⟩, tickerMax := 63, tickerNames := ["PEG", "pUSD", "pEUR"], oneWaySet := [],
+    snapshotRate := 144, perBlockHolders := 0, perBlockDevs := 0, bankBase := 0, avgPeriod := 8, avgRequired := 4,
+    syncVersion := 2, devs := [], «mint» := [], burnAddr := "b", oldBurnAddr := "o", mintAddr := "m", coinbaseAddr := "c", zeroAddr := "0" }
+example :
+    computeAverages wP
+      [(2, [5, 5, 5, 5, 5, 5, 12]), (3, [9, 9, 0, 0, 0, 0, 9])] = [(2, 6), (3, 0)] := by
+  decide
+
 end Pegnet.C13
 
 #print axioms Pegnet.C13.admission_table
@@ -168,3 +250,6 @@ end Pegnet.C13
 #print axioms Pegnet.C13.admissible_funded_executes
 #print axioms Pegnet.C13.peg_destination_invalid
 #print axioms Pegnet.C13.one_way_set_matches_source
+#print axioms Pegnet.C13.cache_consistent_along_every_run
+#print axioms Pegnet.C13.average_published_only_with_enough_quotes
+#print axioms Pegnet.C13.thin_window_conversion_dropped
